@@ -183,6 +183,15 @@ Theorem xml_reload_same_kinds : forall env regs st st' rc,
 Proof. exact (xml_reload_spec true). Qed.
 Print Assumptions xml_reload_same_kinds.
 
+(* ---- topologies adopted from shared memory (read-only) ---- *)
+Theorem adopted_read_only : forall env st o,
+  mutating o = true -> guarded_step true env st o = (Fine st RC_EPERM, true).
+Proof. exact guarded_step_adopted. Qed.
+Print Assumptions adopted_read_only.
+Theorem adopt_inv : forall regs st, Inv true regs st -> Inv true regs (adopt_state st).
+Proof. exact (adopt_state_inv true). Qed.
+Print Assumptions adopt_inv.
+
 (* ---- non-vacuity ---- *)
 (* a history with a split (INTERSECTS), a merge (CONTAINS), an inclusion, a
    restrict that removes a kind, a dup and a registration after it: it runs
